@@ -21,6 +21,9 @@ type c18Spec struct {
 	Arg   int    `json:"arg"`
 	Slice int    `json:"slice"` // write size; -1 all at once; -2 random
 	Mode  string `json:"mode"`  // error-stop | error-continue | wound | wound-agg
+	// Interleave: a second writer of the SAME pool (the other signed file, written with its correct content) is open
+	// at the same time and the two are fed alternately
+	Interleave bool `json:"interleave"`
 }
 
 var c18SSizes = []int64{0, 1, lib.BS - 1, lib.BS, lib.BS + 1, 2 * lib.BS, 2*lib.BS + 77, 5 * lib.BS}
@@ -100,6 +103,20 @@ func c18Cases(tier string, seed uint64, flavor string) []lib.Case {
 				s.Slice = 1
 			}
 			cases = append(cases, lib.Case{Seed: s.Seed, Kind: "random/" + s.Mode, Spec: lib.MustSpec(s)})
+		}
+	}
+	// two writers of one pool open at the same time, fed alternately
+	for _, ss := range []int64{lib.BS + 1, 2 * lib.BS, 3*lib.BS + 77} {
+		for _, dk := range c18DKinds(ss) {
+			for _, sl := range []int{lib.BS / 2, 4096, lib.BS - 1, lib.BS + 1} {
+				if tier != "thorough" && i%3 != 0 {
+					i++
+					continue
+				}
+				s := c18Spec{Seed: lib.Mix(seed, 185, uint64(i)), SSize: ss, DKind: dk[0].(string), Arg: dk[1].(int), Slice: sl, Mode: modes[i%2*2], Interleave: true}
+				cases = append(cases, lib.Case{Seed: s.Seed, Kind: s.DKind + "/interleaved/" + s.Mode, Spec: lib.MustSpec(s)})
+				i++
+			}
 		}
 	}
 	// runs of differing blocks around and beyond the 64-block (4 MiB) wound aggregation limit
@@ -275,10 +292,34 @@ func c18Run(c lib.Case, env *lib.Env) lib.Result {
 		res.Violate("getwriter-error", desc, err.Error())
 		return res
 	}
+	var w0 io.WriteCloser
+	off0 := 0
+	if s.Interleave {
+		w0, err = vp.GetWriter(0)
+		if err != nil {
+			res.Violate("getwriter-error", desc, err.Error())
+			return res
+		}
+	}
+	feedOther := func(n int) {
+		if w0 == nil || off0 >= len(other) {
+			return
+		}
+		if off0+n > len(other) {
+			n = len(other) - off0
+		}
+		if _, err := w0.Write(other[off0 : off0+n]); err != nil {
+			res.Violate("interleaved-valid-writer-rejected", desc, err.Error())
+			w0 = nil
+			return
+		}
+		off0 += n
+	}
 	var firstErr error
 	errAt := -1
 	off := 0
 	for off < len(D) {
+		feedOther(lib.BS/2 + 11)
 		n := s.Slice
 		switch {
 		case n == -1:
@@ -298,6 +339,16 @@ func c18Run(c lib.Case, env *lib.Env) lib.Result {
 				break // ordinary Go code: stop writing after a failed Write, then Close
 			}
 		}
+	}
+	if w0 != nil {
+		feedOther(len(other))
+		if err := w0.Close(); err != nil {
+			res.Violate("interleaved-valid-writer-rejected", desc, "close: "+err.Error())
+		}
+		if !woundMode && !bytes.Equal(inner.data[0], other) {
+			res.Violate("interleaved-valid-writer-corrupted", desc, fmt.Sprintf("the other file came through as %d bytes (first diff at %d), want %d", len(inner.data[0]), firstDiffAt(inner.data[0], other), len(other)))
+		}
+		res.Add("interleaved_writer_pairs", 1)
 	}
 	cerr := w.Close()
 	if firstErr == nil && cerr != nil {
@@ -348,6 +399,20 @@ func c18Run(c lib.Case, env *lib.Env) lib.Result {
 		L := int64(nbD) * lib.BS
 		if s.SSize < L {
 			L = s.SSize
+		}
+		if s.Interleave {
+			// markers of the other (valid) file arrive on the same channel: they must all be healthy
+			var mine []*pwr.Wound
+			for _, wd := range wounds {
+				if wd.Index == 0 {
+					if wd.Kind != pwr.WoundKind_CLOSED_FILE {
+						res.Violate("interleaved-valid-writer-wounded", desc, fmt.Sprintf("%v", wd))
+					}
+					continue
+				}
+				mine = append(mine, wd)
+			}
+			wounds = mine
 		}
 		var prevEnd int64
 		for i, wd := range wounds {
